@@ -118,9 +118,18 @@ func writeEvidence(id, tier string, start time.Time, plan *Plan, results []*sym.
 		"wall_s":      time.Since(start).Seconds(),
 		"violations":  len(confirmed),
 	}
-	if plan != nil {
-		ev["assumptions"] = plan.Assume
+	assume := []string{
+		"go/ssa (x/tools v0.29.0) lowers the package faithfully; the symgo executor implements SSA semantics (translator validation: selftest + native replay of every counterexample)",
+		"z3 answers are trusted; any solver error/unknown makes the run INCONCLUSIVE, never OK",
+		"single goroutine; append reallocation is modelled with capacity == new length",
 	}
+	if plan != nil {
+		assume = append(assume, plan.Assume...)
+		for _, s := range plan.Stubs {
+			assume = append(assume, "stub: "+s)
+		}
+	}
+	ev["assumptions"] = assume
 	os.MkdirAll(filepath.Join(verifDir, "evidence"), 0o755)
 	writeJSON(filepath.Join(verifDir, "evidence", fmt.Sprintf("%s.json", id)), ev)
 }
